@@ -7,7 +7,8 @@
    length); every list of e-mode configs.  "Empty" = fewer than 1.0 shares (Balance::is_empty compares
    shares with EMPTY_BALANCE_THRESHOLD = 1; DESIGN.md §7 C04 records this reading). *)
 Require Import Base Constants Fixed Curve Bank BankOps Risk TransferFee Handlers.
-Require Import FixedLemmas BankLemmas HandlerLemmas ErrLemmas RiskGateLemmas ReconcileLemmas.
+Require Import Price RiskFeed.
+Require Import FixedLemmas BankLemmas HandlerLemmas ErrLemmas RiskGateLemmas ReconcileLemmas RiskFeedLemmas.
 Local Open Scope Z_scope.
 
 (* ---- soundness: success outside a flash loan => the check on the FINAL account in the FINAL world passed *)
@@ -75,6 +76,11 @@ Proof. exact never_rejected_while_healthy. Qed.
 
 Theorem C04_fixed_feed_never_says_rejected : forall p, feed_ng (fixed_feed p).
 Proof. exact fixed_feed_ng. Qed.
+
+(* the same for the feeds that the oracle-adapter model (Price.v, C09) yields for Fixed and Pyth push banks *)
+Theorem C04_oracle_model_feeds_never_say_rejected :
+  forall c ais now, oc_setup c = OS_Fixed \/ oc_setup c = OS_PythPushOracle -> feed_ng (feed_of_oracle c ais now).
+Proof. exact feed_of_oracle_ng. Qed.
 
 (* ---- what the engine computes *)
 (* the two totals are the sums of the per-position weighted values under the reconciled e-mode config *)
@@ -187,6 +193,7 @@ Print Assumptions C04_borrow_rejected_only_when_unhealthy.
 Print Assumptions C04_withdraw_rejected_only_when_unhealthy.
 Print Assumptions C04_never_rejected_while_healthy.
 Print Assumptions C04_fixed_feed_never_says_rejected.
+Print Assumptions C04_oracle_model_feeds_never_say_rejected.
 Print Assumptions C04_health_is_sum_of_weighted_values.
 Print Assumptions C04_position_counts_on_one_side.
 Print Assumptions C04_liability_value_initial.
